@@ -64,7 +64,9 @@ def check_property(prop, tier, seed=0, replay_path=None, only=None):
     results = run_all(contracts, tier)
     replay_dir = os.path.join(VERIF, "replay", prop)
     os.makedirs(replay_dir, exist_ok=True)
-    undecided = [r for r in results if r.status in ("undecided", "vacuous")]
+    skipped_optional = [r for r in results if r.status == "undecided" and r.c.optional]
+    undecided = [r for r in results if r.status in ("undecided", "vacuous") and not (r.status == "undecided" and r.c.optional)]
+    results = [r for r in results if r not in skipped_optional]
     violations = []
     known_lines = []
     n_obl = n_ok = n_bounded = n_bounded_ok = 0
@@ -164,6 +166,7 @@ def check_property(prop, tier, seed=0, replay_path=None, only=None):
             per_contract=per, samples=samples or [dict(note="no contract succeeded")],
             known_findings_reported=known_lines,
             undecided=[dict(contract=r.c.ident(), why=short(r.detail, 300)) for r in undecided],
+            best_effort_contracts_without_verdict=[dict(contract=r.c.ident(), why=short(r.detail, 200)) for r in skipped_optional],
             rule="one obligation = one CBMC property (ensures clause, assigns-clause check, pointer/bounds/overflow/shift check, loop-invariant base/step, unwinding assertion) of one contract enforced by DFCC on the lowered real code; bounded obligations are counted separately and never under 'discharged'",
             explanation=" ".join(getattr(m, "EXPLANATION", "") for m in mods).strip(),
         ),
